@@ -67,4 +67,26 @@ Splices(binds, r) == {Splice(r, c, i, b, UuidPart(binds, u)) : c \in Creds, i \i
 B0 == "b1"
 AttemptResp(a) == Splice(Resp(a.binds, a.c0, B0, a.u0, a.ch0), a.c, a.i, a.b, UuidPart(a.binds, a.u))
 AttemptVerdict(a, wild) == Verdict(AttemptResp(a), a.d, a.ch, a.binds, wild)
+
+\* ------------------------------------------------------------------ histories of the honest host (enumerated by DatGen, decided in DatTrace)
+\* The host of the R-spec has no memory: the response it builds for (device d, challenge ch) with beacon b is Resp(.., b, d, ch),
+\* whatever it has answered before and whichever of its objects it uses again.  A history is a sequence of answers of ONE host with
+\* credential cA; step s = [m, d, ch, b]: m says what the host re-uses from its earlier answers
+\*   "fresh" : nothing - a new configuration, the credential read again
+\*   "cfg"   : the configuration object of the last "fresh" step, with the beacon entry set to b
+\*   "obj"   : the credential OBJECT the host already holds, handed to the response constructor again
+\*   "again" : the response object of the previous step, exported once more (same device, challenge, beacon)
+Modes == {"fresh", "cfg", "obj", "again"}
+MaxHistory == 3
+ValidHistory(h, msgOnly) ==
+  /\ Len(h) \in 2..MaxHistory
+  /\ \A k \in 1..Len(h) : h[k].m \in Modes /\ h[k].d \in Devices /\ h[k].ch \in Chals /\ h[k].b \in Beacons
+  /\ h[1].m \in {"fresh", "obj"}
+  /\ \A k \in 2..Len(h) : /\ (h[k].m = "cfg" => \E j \in 1..(k - 1) : h[j].m = "fresh")
+                          /\ (h[k].m = "again" => h[k].d = h[k - 1].d /\ h[k].ch = h[k - 1].ch /\ h[k].b = h[k - 1].b)
+  \* signed-message variant (enclave, container version 2): no response constructor taking a credential object, one device
+  /\ (msgOnly => \A k \in 1..Len(h) : h[k].m # "obj" /\ h[k].d = "d1")
+StepResp(binds, s) == Resp(binds, "cA", s.b, s.d, s.ch)
+\* what every device of devs says to the answer of step s, for each challenge it may have outstanding
+StepVerdicts(binds, wild, s, devs) == {[d |-> d, ch |-> ch, v |-> Verdict(StepResp(binds, s), d, ch, binds, wild)] : d \in devs, ch \in Chals}
 =============================================================================
